@@ -33,6 +33,7 @@ package gnmi
 //@ spec kindOfCode(c int) int = ite(c == codes.Canceled, errors.Canceled, ite(c == codes.NotFound, errors.NotFound, ite(c == codes.AlreadyExists, errors.AlreadyExists, ite(c == codes.Unauthenticated, errors.Unauthorized, ite(c == codes.PermissionDenied, errors.Forbidden, ite(c == codes.FailedPrecondition, errors.Conflict, ite(c == codes.InvalidArgument, errors.Invalid, ite(c == codes.Unavailable, errors.Unavailable, ite(c == codes.Unimplemented, errors.NotSupported, ite(c == codes.DeadlineExceeded, errors.Timeout, ite(c == codes.Internal, errors.Internal, errors.Unknown)))))))))))
 
 //@ iface Client.Set(ctx, r) (resp, err)
+//@   probe deviceCode: deviceCode
 //@   requires r != nil
 //@   modifies deviceSetCalls, deviceCode, lastSetElectionLow, lastSetElectionHigh, lastSetHasArbitration, lastSetConn, lastSetRequest
 //@   ensures deviceSetCalls == old(deviceSetCalls) + 1
